@@ -26,6 +26,8 @@ def run_simple(pid, tier, plan, replay=None):
         gen_schema(vh)
         design = []
         tlc_states = tlc_trans = 0
+        if plan.get("prepare") and not replay:
+            plan["prepare"](scratch, plan, vh)
         jobs = plan["jobs"]
         if replay:
             jobs = [{"cmd": plan["replay_cmd"](replay), "label": "replay"}]
